@@ -66,6 +66,7 @@ void genIni(Prng& r, Plan& p, int)
 	p.p["explicit_write"] = r.below(2);
 	p.p["exists"] = r.below(8) != 0;
 	p.p["write_fault"] = r.below(5) == 0;
+	p.p["write_elsewhere"] = r.below(5) == 0; // a copy is written to another path first (a backup); the object's own file is still written afterwards
 }
 
 void runIni(const Plan& p)
@@ -203,6 +204,11 @@ void runIni(const Plan& p)
 				sim::faultFired("open_fails_during_write");
 			sim::fs::disarm();
 		}
+		if (p.get("write_elsewhere") && nsets > 0)
+		{
+			ini.write("/sim/backup.ini");
+			sim::probe("written_to_another_path_first");
+		}
 		if (p.get("explicit_write"))
 			ini.write();
 	} // destruction writes too
@@ -225,8 +231,10 @@ void runIni(const Plan& p)
 		}
 		return;
 	}
+	for (int which = 0; which < (p.get("write_elsewhere") && nsets > 0 ? 2 : 1); which++)
 	{
-		asl::IniFile fresh(path, false);
+		// (second round: the copy that was written explicitly to another path holds the same values)
+		asl::IniFile fresh(which ? "/sim/backup.ini" : path, false);
 		for (auto& kv : model)
 		{
 			asl::String got = ((const asl::IniFile&)fresh)[asl::String(kv.first.c_str())];
@@ -235,6 +243,10 @@ void runIni(const Plan& p)
 				bool wasSet = touchedKeys.count(kv.first) > 0;
 				bool lastLine = !lines.empty() && lines.back().kind == 3 && lines.back().section + "/" + lines.back().key == kv.first;
 				std::string key = wasSet ? "set_value" : "untouched_value";
+				if (which)
+					key += ";copy_written_to_another_path";
+				else if (p.get("write_elsewhere"))
+					key += ";after_writing_a_copy_elsewhere";
 				if (!finalNl && lastLine)
 					key += ";last_line_without_newline";
 				sim::fail("ini_persist", key.c_str(), "%s value %s: expected '%s', a fresh IniFile returns '%s' (%d set() calls, original %s trailing newline, %s)", wasSet ? "set" : "untouched pre-existing", kv.first.c_str(),
@@ -297,7 +309,7 @@ void runIni(const Plan& p)
 // ops: tab(seed, rows, cols, flushEvery)
 void genCsv(Prng& r, Plan& p, int)
 {
-	p.ops.push_back(op("tab", {(int64_t)(r.next() >> 20), (int64_t)biased(r, 0, 30, {0, 1, 30}), (int64_t)biased(r, 1, 8, {1, 2, 8}), (int64_t)r.below(4)}));
+	p.ops.push_back(op("tab", {(int64_t)(r.next() >> 20), (int64_t)biased(r, 0, 30, {0, 1, 30}), (int64_t)biased(r, 1, 8, {1, 2, 8}), (int64_t)r.below(4), (int64_t)(r.below(3) == 0)})); // last: the ';' / decimal-comma flavour
 }
 
 struct Cell
@@ -318,6 +330,8 @@ void runCsv(const Plan& p)
 			continue;
 		Prng r((uint64_t)o.arg(0));
 		int rows = (int)std::max<int64_t>(0, std::min<int64_t>(60, o.arg(1))), cols = (int)std::max<int64_t>(1, std::min<int64_t>(12, o.arg(2)));
+		// the reader recognises the ';' flavour (with ',' as decimal mark) by the ';' in the header line, so it needs two columns
+		const bool semicolon = (o.arg(4) & 1) && cols >= 2;
 		std::vector<std::string> names;
 		for (int c = 0; c < cols; c++)
 		{
@@ -357,15 +371,22 @@ void runCsv(const Plan& p)
 					for (int i = 0; i < n; i++)
 						c.sv += sa[r.below((uint32_t)sal)];
 					// fence: string cells must not look like numbers to the documented auto-detection
-					if (!c.sv.empty() && (isdigit((unsigned char)c.sv[0]) || c.sv[0] == '-' || c.sv[0] == '.'))
+					if (!c.sv.empty() && (isdigit((unsigned char)c.sv[0]) || c.sv[0] == '-' || c.sv[0] == '.' || (semicolon && c.sv[0] == ',')))
 						c.sv[0] = 'x';
-					if (c.sv.find(',') != std::string::npos || c.sv.find('"') != std::string::npos)
+					if (c.sv.find(semicolon ? ';' : ',') != std::string::npos || c.sv.find('"') != std::string::npos)
 						needsQuotes = true;
+					if (semicolon && c.sv.find(',') != std::string::npos)
+						sim::probe("string_cell_with_the_decimal_mark");
 				}
 				}
 			}
 		{
 			asl::TabularDataFile f(path);
+			if (semicolon)
+			{
+				f.setSeparator(';');
+				f.setDecimal(',');
+			}
 			asl::Array<asl::String> cn;
 			for (auto& n : names)
 				cn << asl::String(n.c_str());
